@@ -285,8 +285,13 @@ impl Gen<'_> {
                 ((u64::MAX, 512, s), "any")
             }
         };
-        let via = self.rng.below(4);
+        let via = self.rng.below(6);
         let op = match via {
+            // the bomb runs inside a promise job / await continuation: the error comes out of run_jobs
+            4 => Op::Eval { src: format!("Promise.resolve().then(function(){{ {route}({n}); }}).catch(function(){{ print('caught'); }});") },
+            5 => Op::Eval {
+                src: format!("(async function(){{ await null; try {{ {route}({n}); }} finally {{ print('finally-after-bomb'); }} }})();"),
+            },
             0 => Op::Call { func: route.into(), args: vec![n as i32] },
             1 => Op::EvalBudget { src: format!("{route}({n});"), budget: *self.rng.pick(&[1u32, 3, 11, 256]) },
             2 => Op::Eval {
